@@ -20,6 +20,16 @@ CLAIMED = {
          "Every byte string up to length 2 (quick) / 3 (thorough) over all 256 values, every string up to length 5 / 7 over a 12-byte alphabet of opcodes, widths and letters, and every truncation and single-byte substitution of every pool program is fed to ParseAll, ToString and Vm.Run; panics in decoding, success on invalid input and dependence on bytes behind the slice end are violations.",
          "Trusted: the strict reference decoder. NOOP, zero-length symbols and zero-width integers are not constrained. The fuzzing clause of the quantifier is outside this technique and not covered.",
          "DESIGN.md §4 C15"),
+ "C03": ("model_checking",
+         "bounded-exhaustive enumeration of route tables x input histories on the real engine, first-match reference routing stepped in lockstep",
+         "Every route table of up to three INCMP lines over five target kinds and three selectors (duplicates, wildcard anywhere, relative targets) is placed at two depths and driven with every input history up to depth 3; after every request the position, the number of moves (code fetches) and the invalid-input page are compared with the first-match rule.",
+         "Trusted: the 40-line reference routing rule and the navigation table model. Tables longer than 3 lines, other selectors and deeper histories are not covered.",
+         "DESIGN.md §4 C03"),
+ "C04": ("model_checking",
+         "stateless depth-bounded DFS over move sequences on the real vm.Vm and engine, documented move table as a stack machine stepped in lockstep",
+         "All move sequences up to depth 6 (quick) / 8 (thorough) over three named nodes and the five relative targets, issued through MOVE, INCMP and CATCH, plus all input histories up to depth 5 / 7 of a navigator application in long-lived and persisted operation; stack, page index, Where/Depth, cache levels and the persisted snapshot are compared with the table after every move.",
+         "Trusted: the 50-line stack-machine reading of navigation.texi. Two corners are left unconstrained (position after failed '_' at entry; index after '^' at entry).",
+         "DESIGN.md §4 C04"),
 }
 
 NOT_YET = {}
